@@ -589,6 +589,17 @@ C44_BORROWER = """fn __verif::borrower(_1: Loan<S, X>) -> () {
 """
 
 
+def mutate_swap_to_load(fn):
+    """self-test mutation: the (single) atomic swap becomes a plain load (the new value is never written)."""
+    hits = [b for b in fn.order if fn.blocks[b].term.kind == "call" and fn.blocks[b].term.callee.endswith("::swap")]
+    if len(hits) != 1:
+        raise Unsupported(f"self-test mutation: expected exactly one swap in {fn.name}")
+    t = fn.blocks[hits[0]].term
+    t.callee = t.callee.replace("::swap", "::load")
+    t.args = [t.args[0], t.args[2]]
+    t.text = "(self-test mutation) swap replaced by a plain load"
+
+
 def mutate_split_swap_in(fn):
     """self-test mutation: the (single) atomic swap of the function becomes a load followed by a store."""
     mutate_swap_nonatomic(fn)
@@ -599,7 +610,8 @@ def build_c44(mirfile, nthreads, getter="get_mut", mutation=None):
     m = ModelDef("C44", nthreads, mirfile, adts)
     L = r"^fn biarc::<impl at [^>]*lender\.rs[^>]*>::"
     m.add_function(L + r"inner\(_1: &BiArc<T>\) -> &BiArcInner<T>", r"^BiArc::<.*>::inner$")
-    m.add_function(L + r"try_clone\(_1: &BiArc<T>\)", r"^BiArc::<.*>::try_clone$")
+    m.add_function(L + r"try_clone\(_1: &BiArc<T>\)", r"^BiArc::<.*>::try_clone$",
+                   mutate=mutate_swap_to_load if mutation == "try_clone_no_mark" else None)
     m.add_function(L + r"get_unconditional\(_1: &BiArc<T>\)", r"^BiArc::<.*>::get_unconditional$")
     m.add_function(L + r"get_if_shared\(_1: &BiArc<T>\)", r"^BiArc::<.*>::get_if_shared$")
     m.add_function(L + r"drop\(_1: &mut BiArc<T>\) -> \(\)", r"^<BiArc<.*> as Drop>::drop$",
